@@ -323,7 +323,7 @@ impl Property for C13 {
     const ID: &'static str = "C13";
 
     fn rule() -> String {
-        "proptest-generated view programs over a stored content that is not the first blob of its source: source kinds {memory (Reader from Vec), file (FileSource), moved to memory (read <4 KiB / mmap >=4 KiB, through the verif::in_memory hook), background-decoded lz4/lzma/zstd clusters, harness-fed decoder region}; program = up to 8 steps of cut(offset,size) nested to depth >=3, as_slice, ByteSlice->ByteRegion (From), get_slice(offset,len), and streams obtained through stream() or From<ByteRegion> read with a cycling list of request sizes (0, 1, small, >remaining). Arguments always inside the parent's range. Oracle: slice arithmetic on the known bytes E: every view yields exactly E[a..b] for its composed range, size()==b-a, for streams offset()+size_left()==size() after every read, a read of k>0 bytes with bytes left returns 1..=min(k,left) bytes (short reads are legal), the cursor advances by the returned count, reads at the end return 0. Non-trivial = a nested cut at depth >=2 with non-zero offset together with a conversion between view types; distinct by (source kind, program shape).".into()
+        "proptest-generated view programs over a stored content that is not the first blob of its source: source kinds {memory (Reader from Vec), file (FileSource), moved to memory (read <4 KiB / mmap >=4 KiB, through the verif::in_memory hook), background-decoded lz4/lzma/zstd clusters, harness-fed decoder region}; program = up to 8 steps of cut(offset,size) nested to depth >=3, as_slice, ByteSlice->ByteRegion (From), get_slice(offset,len), and streams obtained through stream() or From<ByteRegion> read with a cycling list of request sizes (0, 1, small, >remaining). Arguments always inside the parent's range. Oracle: slice arithmetic on the known bytes E: every view yields exactly E[a..b] for its composed range, size()==b-a, for streams offset()+size_left()==size() after every read, a read of k>0 bytes with bytes left returns 1..=min(k,left) bytes (short reads are legal), the cursor advances by the returned count, reads at the end return 0. Non-trivial = a nested cut at depth >=2 with non-zero offset together with a conversion between view types; distinct by (source kind, program shape). Content lengths include 65530..65545 and 65536..200000 bytes (views longer than a parser window and than one 64 KiB step).".into()
     }
 
     fn assumptions() -> Vec<String> {
@@ -332,7 +332,7 @@ impl Property for C13 {
 
     fn cases(tier: Tier) -> u32 {
         match tier {
-            Tier::Quick => 12000,
+            Tier::Quick => 48000,
             Tier::Thorough => 1500000,
         }
     }
@@ -349,7 +349,8 @@ impl Property for C13 {
                 Just(SrcKind::Fed)
             ],
             prop::collection::vec(content_strategy(LenClass::Small, true), 1..4),
-            prop_oneof![1 => Just(0u32), 1 => Just(1u32), 6 => 0u32..300, 3 => 3000u32..20000, 1 => 4094u32..4099],
+            // views longer than a u16 can count (parser windows are capped at 0xFFFF bytes) and longer than one 64 KiB step
+            prop_oneof![1 => Just(0u32), 1 => Just(1u32), 12 => 0u32..300, 6 => 3000u32..20000, 2 => 4094u32..4099, 1 => 65530u32..65545, 1 => 65536u32..200000],
             any::<u32>(),
             entropy_strategy(),
             prop::collection::vec(step_strategy(), 1..12),
@@ -359,12 +360,15 @@ impl Property for C13 {
     }
 
     fn required_classes(_tier: Tier) -> Vec<&'static str> {
-        vec!["src:Memory", "src:File", "src:Mmap", "src:Lz4", "src:Lzma", "src:Zstd", "src:Fed", "nested-cut-depth>=3", "via-From<ByteRegion>", "mmap>=4KiB", "content-not-at-0", "disturbed-stream"]
+        vec!["src:Memory", "src:File", "src:Mmap", "src:Lz4", "src:Lzma", "src:Zstd", "src:Fed", "view>65535-bytes", "nested-cut-depth>=3", "via-From<ByteRegion>", "mmap>=4KiB", "content-not-at-0", "disturbed-stream"]
     }
 
     fn run(case: &Case, ctx: &Ctx) -> CaseResult {
         let mut info = CaseInfo::new();
         info.class(format!("src:{:?}", case.source));
+        if case.len > 65535 {
+            info.class("view>65535-bytes");
+        }
         let e = content_bytes(case.seed, case.len as usize, case.ent);
         let mut st = St { depth_nonzero_cuts: 0, conversions: 0, evals: 0, max_depth: 0, streams: 0 };
         if case.source == SrcKind::Fed {
